@@ -57,10 +57,11 @@ Fixpoint set_nthZ (i : nat) (v : Z) (l : list Z) : list Z :=
 Definition nw_set (i v : Z) (w : nw_) : nw_ :=
   mkNW (set_nthZ (Z.to_nat i) v (n_vars w)) (n_p w) (n_o w) (n_cms w) (n_calls w) (n_out w).
 
+(** the values reported for a callback of the periodic sensor end with the length of the time series the callback sees *)
 Definition nw_sense (sc : sn_scn) (nw : Z) (w : nw_) : nw_ :=
   let '(p1, calls) := periodic_sense nw (firstn (nq_nprobes sc) (n_vars w)) (n_p w) in
   mkNW (n_vars w) p1 (n_o w) (n_cms w)
-       (rev (map (fun c => let '(cb, t, vs) := c in (0, cb, t, vs)) calls) ++ n_calls w)
+       (rev (map (fun c => let '(cb, t, vs) := c in (0, cb, t, vs ++ [Z.of_nat (length (sn_time p1))])) calls) ++ n_calls w)
        ((nw + nq_interval sc) :: n_out w).
 
 Definition nw_part (sc : sn_scn) (nw : Z) (q v : Z) (w : nw_) : nw_ :=
